@@ -9,6 +9,7 @@ import (
 	sdk "github.com/pokt-network/posmint/types"
 	authTypes "github.com/pokt-network/posmint/x/auth/types"
 	govTypes "github.com/pokt-network/posmint/x/gov/types"
+	posTypes "github.com/pokt-network/posmint/x/pos/types"
 
 	"verifsim/core"
 )
@@ -259,6 +260,22 @@ func Generate(property, tier string, seed uint64) *Trace {
 	if len(gen.Validators) == 0 {
 		gen.KeyTypes[1] = "ed"
 		gen.Validators = append(gen.Validators, GenVal{Acct: 1, Stake: 2000000})
+	}
+	// accounts outside the genesis file (created by their first credit, no key on record)
+	for i := 1; i < g.nAcct; i++ {
+		isVal := false
+		for _, gv := range gen.Validators {
+			if gv.Acct == i {
+				isVal = true
+			}
+		}
+		if !isVal && !isMultiType(gen.KeyTypes[i]) && r.Chance(0.12) {
+			gen.Late = append(gen.Late, i)
+		}
+	}
+	if (property == "C13" || property == "C01") && r.Chance(0.3) {
+		// a block gas limit: results then depend on the gas account the process keeps across transactions
+		gen.MaxGas = int64(r.Range(150000, 4000000))
 	}
 	gen.PrevProposer = gen.Validators[0].Acct
 	gen.DAOTokens = []int64{0, 1000000, 50000000, 1}[r.Intn(4)]
@@ -736,7 +753,8 @@ func (g *gen) genParamSetup(bi int) {
 // fundMultis gives multisignature accounts (which cannot be in the genesis file) their balance.
 func (g *gen) fundMultis(bi int) {
 	for i, kt := range g.tr.Genesis.KeyTypes {
-		if isMultiType(kt) && g.tr.Genesis.Balances[i] > 0 {
+		_ = kt
+		if g.tr.Genesis.outside(i) && g.tr.Genesis.Balances[i] > 0 {
 			amt := g.tr.Genesis.Balances[i]
 			if amt > 30000000 {
 				amt = 30000000
@@ -930,7 +948,7 @@ func (g *gen) genTx(bi int) {
 	case "award":
 		s.Acct = g.pickAcct()
 		s.To = g.pickAcct()
-		s.Amount = []string{"1", "1000", "999999", "1000000", "123456789"}[r.Intn(5)]
+		s.Amount = []string{"1", "1000", "999999", "1000000", "123456789", "0"}[r.Intn(6)]
 	case "burn":
 		s.Acct = g.pickAcct()
 		cands := g.valsWith(func(v *MVal) bool { return v.Status != StUnstaked })
@@ -1144,15 +1162,41 @@ func (g *gen) genReadOnly(bi, pos int, h int64) ReadOnly {
 		}
 		return ReadOnly{Pos: pos, Kind: "query_store", Path: "/store/" + store + sub, Data: hex.EncodeToString(key), Height: height, Prove: r.Chance(0.5)}
 	case 3:
-		p := []string{"/custom/pos/validators", "/custom/pos/params", "/custom/auth/account", "/custom/gov/acl", "/custom/gov/dao_owner", "/custom/pos/nope", "/custom/nope/x", "/custom/pos/staking_pool"}[r.Intn(8)]
-		if g.cfg.mode == "governance" && r.Chance(0.6) {
-			p = []string{"/custom/gov/acl", "/custom/gov/dao_owner", "/custom/gov/upgrade"}[r.Intn(3)]
-		}
 		height := int64(0)
 		if r.Chance(0.5) {
 			height = int64(r.Range(0, int(h)+1))
 		}
-		return ReadOnly{Pos: pos, Kind: "query_custom", Path: p, Data: "7b7d", Height: height}
+		if r.Chance(0.55) {
+			// queries that name an address decode one record through the keepers (and whatever caches they hold)
+			addr := g.kr.Get(g.pickAcct()).Addr
+			if vs := g.valsWith(func(*MVal) bool { return true }); len(vs) > 0 && r.Chance(0.7) {
+				addr = g.kr.Get(vs[r.Intn(len(vs))]).Addr
+			}
+			var p string
+			var data []byte
+			switch r.Intn(4) {
+			case 0:
+				p, data = "/custom/pos/validator", posTypes.ModuleCdc.MustMarshalJSON(posTypes.QueryValidatorParams{Address: addr})
+			case 1:
+				p, data = "/custom/pos/signingInfo", posTypes.ModuleCdc.MustMarshalJSON(posTypes.QuerySigningInfoParams{Address: addr})
+			case 2:
+				p, data = "/custom/pos/account_balance", posTypes.ModuleCdc.MustMarshalJSON(posTypes.QueryAccountBalanceParams{Address: addr})
+			default:
+				p, data = "/custom/auth/account", authTypes.ModuleCdc.MustMarshalJSON(authTypes.NewQueryAccountParams(addr))
+			}
+			return ReadOnly{Pos: pos, Kind: "query_custom", Path: p, Data: hex.EncodeToString(data), Height: height}
+		}
+		p := []string{"/custom/pos/validators", "/custom/pos/staked_validators", "/custom/pos/unstaking_validators", "/custom/pos/unstaked_validators",
+			"/custom/pos/signingInfos", "/custom/pos/parameters", "/custom/pos/stakedPool", "/custom/pos/unstakedPool", "/custom/auth/account",
+			"/custom/gov/acl", "/custom/gov/daoOwner", "/custom/gov/dao", "/custom/gov/upgrade", "/custom/pos/nope", "/custom/nope/x"}[r.Intn(15)]
+		if g.cfg.mode == "governance" && r.Chance(0.6) {
+			p = []string{"/custom/gov/acl", "/custom/gov/daoOwner", "/custom/gov/upgrade", "/custom/gov/dao"}[r.Intn(4)]
+		}
+		data := "7b7d"
+		if r.Chance(0.6) {
+			data = hex.EncodeToString([]byte(fmt.Sprintf(`{"Page":%d,"Limit":%d}`, r.Intn(3), r.Range(0, 12))))
+		}
+		return ReadOnly{Pos: pos, Kind: "query_custom", Path: p, Data: data, Height: height}
 	default:
 		p := []string{"/app/version", "/p2p/filter/addr/1.2.3.4", "", "/", "/store", "/app", "/app/nope"}[r.Intn(7)]
 		return ReadOnly{Pos: pos, Kind: "query_misc", Path: p}
